@@ -953,6 +953,23 @@ func (s *symFn) call(c *ssa.Call) *Sym {
 	}
 	callee := cc.StaticCallee()
 	if callee == nil {
+		// call of a function value held by a package-level variable that is never reassigned: that function
+		if g := loadedGlobal(cc.Value); g != nil && !cc.IsInvoke() && !s.a.mutable[g] {
+			if lit := s.p.Func("var:" + s.p.GlobalKey(g)); lit != nil && s.depth < 3 && len(lit.Blocks) > 0 {
+				sub := newSymFn(s.p, lit, s.depth+1)
+				sub.inlineOK = s.inlineOK
+				for i, prm := range lit.Params {
+					if i < len(args) {
+						sub.params[prm] = args[i]
+					}
+				}
+				if r := sub.returnSym(); r != nil {
+					if has, _ := r.hasUnknown(); !has {
+						return r
+					}
+				}
+			}
+		}
 		// call of a function value
 		return &Sym{Op: "call", Name: "dyn", Kids: append([]*Sym{s.val(cc.Value)}, args...), Kind: kindOf(c.Type())}
 	}
